@@ -33,6 +33,27 @@ import os as _os
 if not _os.environ.get("PYVC_TIMEOUT_MS"):
     from pyvc import solve as _solve
     _solve.QUICK_TIMEOUT_MS = 4000
+def _retry_under_load(pc, goal, timeout_ms):
+    """(round 7) z3 `unknown` on an OVERSUBSCRIBED machine (1-minute load above 1.5 x the core count): one more attempt with four times
+    the budget, so that a 0.1 s lemma starved to > 4 s of wall clock does not become `undecided`.  On a quiet machine nothing is
+    retried (a wrong VC keeps its quick `unknown` -> cvc5 `sat`).  Registered through solve.EXTRA_PROVERS: a True answer is an `unsat`."""
+    try:
+        if _os.getloadavg()[0] <= 1.5 * (_os.cpu_count() or 1):
+            return False
+    except OSError:
+        return False
+    s = z3.Solver()
+    s.set("timeout", int(4 * timeout_ms))
+    s.add(*pc)
+    s.add(z3.Not(goal))
+    return s.check() == z3.unsat
+
+
+from pyvc import solve as _solve_mod
+if not any(getattr(f, "__name__", "") == "_retry_under_load" for f in _solve_mod.EXTRA_PROVERS):
+    _solve_mod.EXTRA_PROVERS.append(_retry_under_load)
+
+
 class _ExecutorKw(dict):
     """Executor options by target; the RTF walker (whatever it is called) runs with cheap feasibility checks."""
 
@@ -502,8 +523,39 @@ RUN_CHILD_CASES = [
 #              w:customXml: transparent) | nothing (w:sectPr, bookmarks, ...)
 # nw image: plain concatenation.  sq image in *leading-blank normal form*: every piece is preceded by one blank,
 # so that "separated by whitespace" composes through nesting; the final claim is modulo the outer blank.
-TBLN = z3.Function("docx_table_nw", ELEM, B, S)        # specified concretely in replay/c02_trees.py (BOUNDED check of _extract_table_text)
+TBLN = z3.Function("docx_table_nw", ELEM, B, S)        # defined below (round 7); the token-level ground truth is in replay/c02_trees.py (BOUNDED check of _extract_table_text)
 TBLS = z3.Function("docx_table_sq", ELEM, B, S)
+# (round 7) the table text DEFINED as the fold the statement describes: rows in document order, the cells of each row, in each cell
+# the non-blank paragraphs joined by a blank.  "Rows of a table" / "cells of a row" / "paragraphs of a cell" are iter(tag) of the
+# etree model (pre-order descendants): for a table without nested tables these are exactly its rows, cells and paragraphs.
+TROWS_N, TROWS_S = z3.Function("docx_table_rows_nw", ELEM, I, B, S), z3.Function("docx_table_rows_sq", ELEM, I, B, S)
+TCELLS_N, TCELLS_S = z3.Function("docx_row_cells_nw", ELEM, I, B, S), z3.Function("docx_row_cells_sq", ELEM, I, B, S)
+TPARS_N, TPARS_S = z3.Function("docx_cell_paragraphs_nw", ELEM, I, B, S), z3.Function("docx_cell_paragraphs_sq", ELEM, I, B, S)
+
+
+def _iter_fold(F, tag, item):
+    def d(e, k, inc):
+        k1 = z3.simplify(k - 1)
+        return prefix_def(F(e, k, inc), k, cc(F(e, k1, inc), item(ET.ITER_AT(e, tag, k1), inc))) + [ET.ITER_N(e, tag) >= 0]
+    return d
+
+
+def table_nest_shape(rel, qual):
+    """The function is a nest of exactly three `for` loops over `.iter(...)` calls with no comprehension / generator / helper loop:
+    the shape the verified contract of _extract_table_text is written for (anything else keeps the assumed contract + bounded check)."""
+    import ast
+    from pyvc import loader
+    try:
+        fn = loader.module(rel).functions.get(qual)
+    except Exception:  # noqa  (unreadable / unparsable source: not the shape)
+        return False
+    if fn is None:
+        return False
+    loops = [x for x in ast.walk(fn) if isinstance(x, (ast.For, ast.While, ast.ListComp, ast.GeneratorExp, ast.SetComp, ast.DictComp))]
+    return len(loops) == 3 and all(isinstance(x, ast.For) and isinstance(x.iter, ast.Call) and isinstance(x.iter.func, ast.Attribute)
+                                   and x.iter.func.attr == "iter" for x in loops)
+
+
 BODYN = z3.Function("docx_blocks_nw", ELEM, I, B, S)
 BODYS = z3.Function("docx_blocks_sq", ELEM, I, B, S)
 
@@ -523,6 +575,15 @@ def _blocks_def(F, par, tbl):
 
 define(BODYN, _blocks_def(BODYN, lambda c, inc: DXN.all_kids(c, inc), TBLN))
 define(BODYS, _blocks_def(BODYS, lambda c, inc: z3.If(DXN.all_kids(c, inc) == lit(""), lit(""), cc(" ", DXS.all_kids(c, inc))), TBLS))
+
+define(TPARS_N, _iter_fold(TPARS_N, W_P, lambda p, inc: DXN.all_kids(p, inc)))
+define(TPARS_S, _iter_fold(TPARS_S, W_P, lambda p, inc: z3.If(DXN.all_kids(p, inc) == lit(""), lit(""), cc(" ", DXS.all_kids(p, inc)))))
+define(TCELLS_N, _iter_fold(TCELLS_N, W_TC, lambda c, inc: TPARS_N(c, ET.ITER_N(c, W_P), inc)))
+define(TCELLS_S, _iter_fold(TCELLS_S, W_TC, lambda c, inc: TPARS_S(c, ET.ITER_N(c, W_P), inc)))
+define(TROWS_N, _iter_fold(TROWS_N, W_TR, lambda r, inc: TCELLS_N(r, ET.ITER_N(r, W_TC), inc)))
+define(TROWS_S, _iter_fold(TROWS_S, W_TR, lambda r, inc: TCELLS_S(r, ET.ITER_N(r, W_TC), inc)))
+define(TBLN, lambda t, inc: [TBLN(t, inc) == TROWS_N(t, ET.ITER_N(t, W_TR), inc)])
+define(TBLS, lambda t, inc: [TBLS(t, inc) == TROWS_S(t, ET.ITER_N(t, W_TR), inc)])
 
 BODY_CHILD_CASES = [
     ("paragraph", lambda t: t == W_P),
@@ -647,15 +708,54 @@ def docx_contracts():
         return X.mk_slist(ex, st, n, cat, lead, fresh=True)
 
     st_ = Sig(DOCX, TBL, ["table", "include_formulas"])
-    table = under(
-        DOCX, "_extract_table_text", TBL,
-        params=st_.params({"table": p_elem(), "include_formulas": p_bool()}),
-        assumed=True, result_maker=tbl_result,
-        ensures=[("nw", lambda c: NW(cat_of(c.st, c.result)) == TBLN(st_(c, "table").t, st_(c, "include_formulas").t)),
-                 ("sq", lambda c: lead_of(c.st, c.result) == TBLS(st_(c, "table").t, st_(c, "include_formulas").t)),
-                 ("pieces-not-blank", lambda c: (_sl(c.st, c.result)[0] == 0) == (NW(cat_of(c.st, c.result)) == lit("")))],
-        note="callee contract used by the body walk; the function itself is checked exhaustively over small trees (BOUNDED, replay/C02.py)",
-    )
+    tbl_clauses = [("nw", lambda c: NW(cat_of(c.st, c.result)) == TBLN(st_(c, "table").t, st_(c, "include_formulas").t)),
+                   ("sq", lambda c: lead_of(c.st, c.result) == TBLS(st_(c, "table").t, st_(c, "include_formulas").t)),
+                   ("pieces-not-blank", lambda c: (_sl(c.st, c.result)[0] == 0) == (NW(cat_of(c.st, c.result)) == lit("")))]
+    if table_nest_shape(DOCX, TBL):
+        # (round 7) VERIFIED: TBLN / TBLS are now DEFINED (the row / cell / paragraph folds above) and the three loops carry invariants
+        def iter_of(seq, tag):
+            """The element whose `iter(tag)` the loop runs over (None: another kind of loop)."""
+            n = getattr(seq, "length", None)
+            if isinstance(seq, VSeq) and seq.ekind == "Elem" and n is not None and z3.is_app(n) and n.decl().name() == ET.ITER_N.name() and n.arg(1).eq(tag):
+                return n.arg(0)
+            return None
+
+        def fold_inv(tag, FN, FS):
+            def inv(lc):
+                e, inc = iter_of(lc.seq, tag), top(lc, st_.name["include_formulas"]).t
+                (n0, c0, l0), (n, cat, lead) = grown(lc)
+                return Conj([("nw", NW(cat) == cc(NW(c0), FN(e, lc.i, inc))),
+                             ("sq", lead == cc(l0, FS(e, lc.i, inc))),
+                             ("pieces-not-blank", z3.Implies((n0 == 0) == (NW(c0) == lit("")), (n == 0) == (NW(cat) == lit(""))))])
+            return inv
+
+        table = under(
+            DOCX, "_extract_table_text", TBL,
+            params=st_.params({"table": p_elem(), "include_formulas": p_bool()}),
+            result_maker=tbl_result,
+            ensures=[need_loops("rows", "cells", "paragraphs")] + [(f"{nm}(result)==docx_table_{nm}(table)" if nm != "pieces-not-blank" else nm, X.robust(f))
+                                                                    for nm, f in tbl_clauses],
+            note="the table text is, by definition, the fold over the rows table.iter(w:tr), their cells row.iter(w:tc) and the non-blank "
+                 "paragraphs cell.iter(w:p) of each cell joined by a blank (that iter() also reaches the rows of a NESTED table is the recorded "
+                 "finding F20-docx-nested-table, decided by the bounded token check, not by this definition)",
+        )
+        specs = {"rows": (W_TR, TROWS_N, TROWS_S), "cells": (W_TC, TCELLS_N, TCELLS_S), "paragraphs": (W_P, TPARS_N, TPARS_S)}
+
+        def table_loops(ex, st, node, it):
+            for label, (tag, FN, FS) in specs.items():
+                if iter_of(it, tag) is not None:
+                    return matched(ex, LoopSpec(inv=fold_inv(tag, FN, FS), label=label))
+            return None
+        table.loop_match = table_loops
+    else:
+        table = under(
+            DOCX, "_extract_table_text", TBL,
+            params=st_.params({"table": p_elem(), "include_formulas": p_bool()}),
+            assumed=True, result_maker=tbl_result,
+            ensures=tbl_clauses,
+            note="callee contract used by the body walk (ASSUMED: the function is not the three-loop nest the verified contract is written for); "
+                 "the function itself is checked exhaustively over small trees (BOUNDED, replay/C02.py)",
+        )
     sb = Sig(DOCX, BODY, ["body", "include_formulas"])
 
     def body_inv(lc):
@@ -691,6 +791,96 @@ def docx_contracts():
                                                 if elem_loop(it, st.frames[0].env.get(sb.name["body"])) else None)
     return [process, omml, para, table, body]
 
+
+
+# =====================================================================================
+# (b'') (round 7) DrawingML paragraph text  --  pptx_extractor.py::_extract_text_from_paragraphs
+#
+# Statement: the text of a text body is the text of its paragraphs (a:p, in document order) separated by whitespace; the text of
+# a paragraph is EXACTLY the concatenation, in order, of: the a:t text of every run / field child (a:r, a:fld; nothing when it has no
+# a:t or the a:t is empty), a vertical tab (whitespace: "line-break boundary") for every a:br, the text of a direct a:t child;
+# every other child (a:pPr, a:endParaRPr ...) contributes nothing.  Nothing is lost, duplicated, reordered or invented.
+# =====================================================================================
+PPTX = "sharepoint2text/parsing/extractors/ms_modern/pptx_extractor.py"
+A_ = "{http://schemas.openxmlformats.org/drawingml/2006/main}"
+A_P, A_R, A_T, A_BR, A_FLD = (lit(A_ + x) for x in ("p", "r", "t", "br", "fld"))
+PXP = z3.Function("pptx_paragraph_text", ELEM, I, S)          # exact text of the first k children of a paragraph
+PXN = z3.Function("pptx_paragraphs_nw", ELEM, I, S)
+PXS = z3.Function("pptx_paragraphs_sq", ELEM, I, S)
+
+
+def px_item(c):
+    t = CH(c, FIND_IDX(c, A_T))
+    return z3.If(z3.Or(TAG(c) == A_R, TAG(c) == A_FLD), z3.If(FIND_NONE(c, A_T), lit(""), TEXT(t)),
+                 z3.If(TAG(c) == A_BR, lit("\x0b"), z3.If(TAG(c) == A_T, TEXT(c), lit(""))))
+
+
+def _pxp_def(p_, k):
+    k1 = z3.simplify(k - 1)
+    c = CH(p_, k1)
+    t = CH(c, FIND_IDX(c, A_T))
+    return prefix_def(PXP(p_, k), k, cc(PXP(p_, k1), px_item(c))) + [
+        z3.Implies(TEXT_NONE(c), TEXT(c) == lit("")), z3.Implies(TEXT_NONE(t), TEXT(t) == lit("")), NCH(p_) >= 0]
+
+
+define(PXP, _pxp_def)
+define(PXN, lambda e, k: prefix_def(PXN(e, k), k, cc(PXN(e, z3.simplify(k - 1)), NW(PXP(ET.ITER_AT(e, A_P, z3.simplify(k - 1)), NCH(ET.ITER_AT(e, A_P, z3.simplify(k - 1))))))))
+define(PXS, lambda e, k: prefix_def(PXS(e, k), k, cc(PXS(e, z3.simplify(k - 1)), " ", SQ(PXP(ET.ITER_AT(e, A_P, z3.simplify(k - 1)), NCH(ET.ITER_AT(e, A_P, z3.simplify(k - 1))))))))
+
+PX_CHILD_CASES = [
+    ("run-or-field", lambda t: z3.Or(t == A_R, t == A_FLD)),
+    ("line-break", lambda t: z3.And(t != A_R, t != A_FLD, t == A_BR)),
+    ("direct-text", lambda t: z3.And(t != A_R, t != A_FLD, t != A_BR, t == A_T)),
+    ("other-child", lambda t: z3.And(t != A_R, t != A_FLD, t != A_BR, t != A_T)),
+]
+
+
+def pptx_contracts():
+    FN = find_fn(PPTX, "_extract_text_from_paragraphs", mentions=["A_P", "A_BR", "join"], nparams=1)
+    sg = Sig(PPTX, FN, ["elem"])
+
+    def iter_elem(seq):
+        n = getattr(seq, "length", None)
+        if isinstance(seq, VSeq) and seq.ekind == "Elem" and n is not None and z3.is_app(n) and n.decl().name() == ET.ITER_N.name() and n.arg(1).eq(A_P):
+            return n.arg(0)
+        return None
+
+    def pars_inv(lc):
+        e = iter_elem(lc.seq)
+        (_n0, c0, l0), (_n1, cat, lead) = grown(lc)
+        return Conj([("nw", NW(cat) == cc(NW(c0), PXN(e, lc.i))), ("sq", lead == cc(l0, PXS(e, lc.i)))])
+
+    def kids_inv(lc):
+        p_ = lc.seq.t
+        (_n0, c0, _l0), (_n1, cat, _l1) = grown(lc)
+        last = TAG(CH(p_, z3.simplify(lc.i - 1)))
+        return Conj([(f"exact[{cn}]", z3.Implies(g(last), cat == cc(c0, PXP(p_, lc.i)))) for cn, g in PX_CHILD_CASES])
+
+    def post_nw(c):
+        e = sg(c, "elem").t
+        return NW(c.result.t) == PXN(e, ET.ITER_N(e, A_P))
+
+    def post_sq(c):
+        e = sg(c, "elem").t
+        return sep_claim(SQ(c.result.t), PXS(e, ET.ITER_N(e, A_P)))
+
+    con = under(
+        PPTX, "_extract_text_from_paragraphs", FN,
+        params=sg.params({"elem": p_elem()}),
+        ensures=[need_loops("paragraphs", "children"), ("nw(result)==nw-of-the-paragraph-texts-in-order", X.robust(post_nw)),
+                 ("sq(result)==paragraph-texts-separated-by-whitespace", X.robust(post_sq))],
+        result_maker=lambda ex, st, ctx: VStr(z3.String(fresh_name("paragraphs_text"))),
+        note="paragraph text exact (inner invariant), paragraphs observed through nw / sq; a:br is a vertical tab, i.e. whitespace",
+    )
+
+    def loops(ex, st, node, it):
+        if iter_elem(it) is not None:
+            return matched(ex, LoopSpec(inv=pars_inv, label="paragraphs"))
+        if isinstance(it, VExt) and it.sort == "Elem":
+            return matched(ex, LoopSpec(inv=kids_inv, label="children"))
+        return None
+    con.loop_match = loops
+    return [con]
 
 
 # =====================================================================================
@@ -732,6 +922,15 @@ define(FN_N, _fold(FN_N, lambda k: NW(formula_text(F_AT(k)))))
 define(FN_S, _fold(FN_S, lambda k: cc(" ", SQ(formula_text(F_AT(k))))))
 define(IN_N, _fold(IN_N, lambda k: z3.If(IM_DESC(IM_AT(k)) == lit(""), lit(""), NW(caption_text(IM_AT(k))))))
 define(IN_S, _fold(IN_S, lambda k: z3.If(IM_DESC(IM_AT(k)) == lit(""), lit(""), cc(" ", SQ(caption_text(IM_AT(k)))))))
+
+
+UNIT = ext_sort("DocUnit")
+U_AT = z3.Function("doc.units.at", I, UNIT)
+U_TEXT = z3.Function("DocUnit.get_text", UNIT, S)
+UN_N = z3.Function("doc_unit_texts_nw", I, S)
+UN_S = z3.Function("doc_unit_texts_sq", I, S)
+define(UN_N, _fold(UN_N, lambda k: NW(U_TEXT(U_AT(k)))))
+define(UN_S, _fold(UN_S, lambda k: cc(" ", SQ(U_TEXT(U_AT(k))))))
 
 
 def p_objseq(sort, at):
@@ -817,8 +1016,43 @@ def dt_contracts(reg):
 
     # ---- DocContent.get_full_text: the documented title line ------------------------------------
     UNITS = z3.Const("doc.joined_unit_text", S)
-    out.append(FnContract(target=f"{DT}::_join_unit_text", params=[("units", Maker(lambda ex, st, n: VUnk(n), desc="iterator"))], assumed=True,
-                          returns=lambda c: VStr(UNITS), note="C03 decides what the joined unit text is"))
+    # (round 7) _join_unit_text VERIFIED: the joined text is the texts of the units, in order, separated by whitespace, outer whitespace
+    # stripped -- nothing lost, duplicated, reordered or invented between the units and the document text.  (WHICH units there are
+    # and what their text is stays C03's subject: `unit.get_text()` is uninterpreted.)  Call sites keep seeing "some string" (implied).
+    JU = find_fn(DT, "_join_unit_text", mentions=["get_text", "join"], nparams=1)
+    sj = Sig(DT, JU, ["units"])
+    reg.method_models[("DocUnit", "get_text")] = lambda ex, st, obj, a, k, n: [(st, VStr(U_TEXT(obj.t)))]
+    ju_own = []
+
+    def ju_inv(lc):
+        (_n0, c0, l0), (_n1, c1, l1) = grown(lc)
+        return Conj([("nw", NW(c1) == cc(NW(c0), UN_N(lc.i))), ("sq", l1 == cc(l0, UN_S(lc.i)))])
+
+    def ju_n(c):
+        v = sj(c, "units")
+        if not isinstance(v, VSeq):
+            raise X.Unsupported("units")
+        return v.length
+
+    def ju_clause(f):
+        return X.robust(lambda c: z3.BoolVal(True) if _is_call_site(c, ju_own[0]) else f(c))
+
+    ju = under(
+        DT, "_join_unit_text", JU,
+        params=sj.params({"units": p_objseq("DocUnit", U_AT)}),
+        result_maker=lambda ex, st, ctx: VStr(UNITS),
+        ensures=[need_loops("units"),
+                 ("nw(result)==nw-of-the-unit-texts-in-order", ju_clause(lambda c: NW(c.result.t) == UN_N(ju_n(c)))),
+                 ("sq(result)==unit-texts-separated-by-whitespace", ju_clause(lambda c: z3.Implies(ju_n(c) > 0, T.trim(SQ(c.result.t)) == T.trim(UN_S(ju_n(c))))))],
+        note="call sites: the result is the constant doc.joined_unit_text (some string; C03 decides which units exist)",
+    )
+    ju_own.append(ju)
+    ju.loop_match = lambda ex, st, node, it: (matched(ex, LoopSpec(inv=ju_inv, label="units")) if isinstance(it, VSeq) and it.ekind == "DocUnit" else None)
+    if sj.ok:
+        out.append(ju)
+    else:
+        out.append(FnContract(target=f"{DT}::_join_unit_text", params=[("units", Maker(lambda ex, st, n: VUnk(n), desc="iterator"))], assumed=True,
+                              returns=lambda c: VStr(UNITS), note="C03 decides what the joined unit text is"))
     out.append(FnContract(target=f"{DT}::DocContent.iterate_units", params=[("self", Maker(lambda ex, st, n: VUnk(n), desc="DocContent"))], assumed=True,
                           returns=lambda c: VUnk("units"), note="C03"))
 
@@ -1166,9 +1400,18 @@ def epub_walker_contracts(reg, P_STR, P_ATTRS):
 
     out = []
     norm = find_fn(C.EPUB, f"{C.ECLS}._normalize_ws", mentions=["split", "join"], nparams=1)
-    out.append(FnContract(target=f"{C.EPUB}::{norm}", params=[("self", Maker(lambda ex, st, n: VUnk(n), desc="receiver (static method)")), ("value", P_STR)], assumed=True,
-                          returns=lambda c: VStr(T.STRIP(T.WSSUB(c.args["value"].t))),
-                          note="' '.join(v.split()) == strip(collapse whitespace runs to one blank)  (assumed model of str.split / join)"))
+    # (round 7) VERIFIED on the real body, given the assumed models of str.split() / ' '.join / strip: nothing but whitespace
+    # changes, inner runs collapse, outer whitespace goes.  Call sites name the result strip(ws_sub(value)): of that term only
+    # nw(.) == nw(value), sq(.) == trim(sq(value)) and emptiness <=> blank are ever used, and these are the clauses proved here.
+    nv = lambda c: c.args["value"].t
+    out.append(under(
+        C.EPUB, f"{C.ECLS}._normalize_ws", norm,
+        params=[("self", Maker(lambda ex, st, n: VUnk(n), desc="receiver (static method)")), ("value", P_STR)],
+        result_maker=lambda ex, st, ctx: VStr(T.STRIP(T.WSSUB(ctx.args["value"].t))),
+        ensures=[("nw(result)==nw(value)", X.robust(lambda c: NW(c.result.t) == NW(nv(c)))),
+                 ("sq(result)==trim(sq(value))", X.robust(lambda c: z3.Implies(NW(nv(c)) != lit(""), SQ(c.result.t) == T.trim(SQ(nv(c)))))),
+                 ("result-empty-iff-value-blank", X.robust(lambda c: (z3.Length(c.result.t) == 0) == (NW(nv(c)) == lit(""))))],
+        note="' '.join(v.split()).strip() collapses whitespace runs to one blank and strips the ends (assumed models: str.split(), str.join, str.strip)"))
     for name, extra in (("handle_starttag", [("tag", P_STR), ("attrs", P_ATTRS)]), ("handle_endtag", [("tag", P_STR)]), ("handle_data", [("data", P_STR)])):
         ens = [("inside-removed-markup-text-sinks-and-layout-state-untouched", X.robust(e_untouched))]
         if name == "handle_data":
@@ -1184,7 +1427,8 @@ def epub_walker_contracts(reg, P_STR, P_ATTRS):
 def builder_contracts(reg):
     C = _C17
     reg.ext_models["str.lower"] = C.m_lower
-    reg.ext_models["str.split"] = C.m_split
+    # split(sep ...) -> C17's opaque list (tree builder); the argument-less split() on a symbolic string -> the words model (round 7)
+    reg.ext_models["str.split"] = lambda ex, st, args, kwargs, node: (X.m_split if len(args) == 1 and not kwargs and isinstance(args[0], VStr) else C.m_split)(ex, st, args, kwargs, node)
     reg.method_models[("HTMLParserBase", "__init__")] = lambda ex, st, obj, a, k, n: [(st, NONE)]
     P_STR = Maker(lambda ex, st, name: VStr(z3.String(name)), desc="str")
     P_ATTRS = Maker(lambda ex, st, name: VExt("AttrList"), desc="list of (name, value|None) pairs")
@@ -1252,6 +1496,91 @@ RTF = "sharepoint2text/parsing/extractors/ms_legacy/rtf_extractor.py"
 IS_SKIP = z3.Function("rtf.is_skip_destination", S, B)
 
 
+# ---- (round 7) the destination test itself under contract ------------------------------------------------
+# Statement: "text that the documentation excludes from the default full text (... headers/footers ...) never appears",
+# "no text that is neither in the source ..." (font / colour / style tables, document info, picture data are not body
+# text) and "nothing lost": a group is skipped ONLY when it is an ignorable destination ({\* ...}) or starts with a
+# control word of the class's own destination table.  The table is a class constant; it is read from the source on
+# every run (not transcribed here), the always-excluded destinations are written down from the statement.
+RTF_EXCLUDED = ("header", "footer", "fonttbl", "colortbl", "stylesheet", "info", "pict")      # (headerl/r/f, footerl/r/f start with header / footer)
+
+
+def _is_call_site(c, owner):
+    return getattr(c.ex, "contract", None) is not owner or c.ex.inline_depth > 0 or getattr(c.ex, "in_apply", 0) > 0
+
+
+def rtf_skip_table(fn_qual):
+    """(attribute name, items) of the class-level table of str the destination test reads through `self`; None when
+    there is no single such table or it is not a literal (then the test stays an ASSUMED uninterpreted predicate)."""
+    import ast
+    from pyvc import loader
+    try:
+        mod = loader.module(RTF)
+        fn = mod.functions.get(fn_qual)
+        cls = mod.classes.get(fn_qual.rsplit(".", 1)[0]) if "." in fn_qual else None
+        if fn is None or cls is None or not fn.args.args:
+            return None
+        me = fn.args.args[0].arg
+        used = {x.attr for x in ast.walk(fn) if isinstance(x, ast.Attribute) and isinstance(x.value, ast.Name) and x.value.id == me}
+        tables = {}
+        for node in cls.body:
+            tgt = node.targets[0] if isinstance(node, ast.Assign) and len(node.targets) == 1 else (node.target if isinstance(node, ast.AnnAssign) else None)
+            if isinstance(tgt, ast.Name) and tgt.id in used and getattr(node, "value", None) is not None:
+                v = node.value
+                if isinstance(v, ast.Call) and isinstance(v.func, ast.Name) and v.func.id in ("frozenset", "set", "tuple", "list") and len(v.args) == 1 and not v.keywords:
+                    v = v.args[0]
+                try:
+                    items = ast.literal_eval(v)
+                except (ValueError, SyntaxError):
+                    return None
+                if not isinstance(items, (set, frozenset, tuple, list)) or not all(isinstance(x, str) for x in items):
+                    return None
+                tables[tgt.id] = sorted(set(items))
+        if len(tables) != 1:
+            return None
+        return next(iter(tables.items()))
+    except Exception:  # noqa
+        return None
+
+
+def rtf_skip_contract(ISSKIP, sk_):
+    """VERIFIED contract of `_RtfParser._is_skip_destination` (None: the table is not a literal; the predicate stays assumed)."""
+    from pyvc.values import VSetC
+    tab = rtf_skip_table(ISSKIP)
+    if tab is None or not sk_.ok:
+        return None
+    attr, items = tab
+    bs = lit("\\")
+
+    def spec(a):
+        return z3.Or([z3.PrefixOf(lit("\\*"), a)] + [z3.PrefixOf(cc(bs, lit(k)), a) for k in items])
+
+    own = []
+
+    def returns(c):
+        a = sk_(c, "ahead").t
+        if _is_call_site(c, own[0]):
+            return VBool(IS_SKIP(a))          # call-site view: a function of the lookahead (implied: the table is a constant)
+        return VBool(spec(a))
+
+    def excluded(d):
+        return lambda c: z3.Implies(z3.PrefixOf(lit("\\" + d), sk_(c, "ahead").t),
+                                    z3.BoolVal(True) if _is_call_site(c, own[0]) else (c.result.t if isinstance(c.result, VBool) else z3.BoolVal(False)))
+
+    p_self = p_obj("_RtfParser", {attr: Maker(lambda ex, st, n: VSetC(items, name=attr), desc=f"the class constant {attr} ({len(items)} control words, read from the source)")})
+    con = under(
+        RTF, "_RtfParser._is_skip_destination", ISSKIP,
+        params=sk_.params({"self": p_self, "ahead": p_str()}),
+        returns=returns,
+        ensures=[(f"excluded-destination-is-skipped[{d}]", X.robust(excluded(d))) for d in RTF_EXCLUDED],
+        note="result == (lookahead starts with `\\*` or with `\\` + a control word of the class's destination table); headers, footers and the "
+             "non-text destinations of the statement are skipped whatever the table says.  Call sites see the result as an (uninterpreted) "
+             "function of the lookahead, which this contract implies",
+    )
+    own.append(con)
+    return con
+
+
 def rtf_contracts():
     unk = lambda: Maker(lambda ex, st, n: VUnk(n), desc="any")
     p_self = p_obj("_RtfParser", {"pages": unk(), "SPECIAL_CHARS": unk(), "SKIP_DESTINATIONS": unk()})
@@ -1259,7 +1588,14 @@ def rtf_contracts():
     WALK = find_fn(RTF, "_RtfParser._strip_rtf_full_with_pages", mentions=["SPECIAL_CHARS", "pages"], calls=[ISSKIP], nparams=2)
     sk_ = Sig(RTF, ISSKIP, ["self", "ahead"])
     isskip = FnContract(target=f"{RTF}::{ISSKIP}", params=sk_.params({"self": p_self, "ahead": p_str()}), assumed=True,
-                        returns=lambda c: VBool(IS_SKIP(sk_(c, "ahead").t)), note="which control words are destinations is a table (uninterpreted here)")
+                        returns=lambda c: VBool(IS_SKIP(sk_(c, "ahead").t)),
+                        note="fallback only (the destination table is not a literal class constant): which control words are destinations is uninterpreted")
+    try:
+        isskip_v = rtf_skip_contract(ISSKIP, sk_)      # round 7: VERIFIED; its call-site view is the same uninterpreted predicate
+    except Exception:  # noqa
+        isskip_v = None
+    if isskip_v is not None:
+        isskip = isskip_v
 
     def roles():
         """The walker's state variables, found by what they do, not by name: in the branch guarded by the
@@ -1335,6 +1671,7 @@ def contracts(reg):
     out = []
     out += odf_contracts(reg)
     out += docx_contracts()
+    out += pptx_contracts()
     out += dt_contracts(reg)
     out += html_contracts(reg)
     out += xls_contracts()
@@ -1468,7 +1805,40 @@ FUNC_OF_CHECK = {
     "odp.tables": "odp_extractor.py::read_odp.iterate_tables",
     "epub.source": "epub_extractor.py::read_epub",
     "rtf.unicode": "rtf_extractor.py::_decode_unicode_run",
+    "rtf.skip": "rtf_extractor.py::_RtfParser._is_skip_destination",
+    "dt.units": "data_types.py::_join_unit_text",
 }
+
+# (round 7) functions whose contract is VERIFIED while their body has the shape the contract is written for and that fall back to
+# "assumed at call sites + bounded token check" otherwise: (function, in-subset test, bounded check).  In the fallback the ids of
+# the verified contract are reported with the verdict of the bounded check -- status bounded-ok, never counted as discharged.
+VERIFIED_OR_BOUNDED = [
+    ("docx_extractor.py::_extract_table_text",
+     lambda: table_nest_shape(DOCX, find_fn(DOCX, "_extract_table_text", mentions=["W_TR", "W_TC"], nparams=2)), "docx.table"),
+]
+
+
+def _fallback_obligations(res):
+    import json
+    import os
+    out = []
+    for fn, in_subset, check in VERIFIED_OR_BOUNDED:
+        try:
+            if in_subset():
+                continue
+            root = os.path.dirname(os.path.dirname(os.path.abspath(__file__)))
+            lock = json.load(open(os.path.join(root, "obligations.lock.json"))).get("C02", {})
+            kf = json.load(open(os.path.join(root, "known_findings.json"))).get("findings", [])
+            recorded = {o.split("#tokens[", 1)[1][:-1] for f in kf if f.get("property") == "C02"
+                        for o in f.get("covers", [f.get("obligation", "")]) if o.startswith(f"C02/{fn}/bounded#tokens[")}
+            cases = [r for case, r in res.get(check, {}).items() if not case.startswith("<") and case not in recorded]
+            bad = next((r["witness"] for r in cases if r["failures"]), None)
+            for oid in lock:
+                if oid.startswith(f"C02/{fn}/") and "/bounded#" not in oid and "/inv-" not in oid:
+                    out.append(dict(_ob(oid, bad is None and bool(cases), sum(r["checked"] for r in cases), bad), bounded=True))
+        except Exception:  # noqa
+            continue
+    return out
 
 
 def run_native(repo, *args, timeout=900):
@@ -1531,6 +1901,7 @@ def bounded_native(repo, tier):
             if r.get("unsupported"):
                 continue
             obls.append(_ob(f"C02/api::{fmt}.get_full_text/document#tokens[{feat}]", bool(r.get("ok")), 1, None if r.get("ok") else r, kind="document"))
+    obls.extend(_fallback_obligations(res))
     m = res.get("model", {})
     obls.append(_ob("C02/etree_model::Element/bounded#agrees-with-xml.etree", not m.get("mismatches"), m.get("trees", 0),
                     {"target": "xml.etree.ElementTree", "inputs": str(m.get("mismatches"))[:500], "kinds": ["model"]} if m.get("mismatches") else None))
@@ -2648,12 +3019,18 @@ ASSUMPTIONS = ["OOXML-SCHEMA: w:tab, w:br and w:cr are empty elements (ECMA-376 
                "partial correctness: termination of the recursive walkers is C01's obligation"]
 BOUNDED = [
     "docx _extract_table_text: all tables with <= 2 rows x <= 2 cells, cell content out of {p, p p, sdt(p), p + nested 1x1 table, nested 1x2 table}, "
-    "rows / cells optionally inside content controls (replay/c02_trees.py::gen_docx_tables)",
+    "rows / cells optionally inside content controls (replay/c02_trees.py::gen_docx_tables) -- since round 7 this COMPLEMENTS the verified contract "
+    "(the fold over iter(w:tr) / iter(w:tc) / iter(w:p) is proved for every tree; the token check decides what that fold means for nested tables "
+    "and is the only check when the function is not the three-loop nest: VERIFIED_OR_BOUNDED)",
     "odt _extract_full_text: office:text with <= 2 blocks out of 19 constructs (paragraph, heading, span, s/tab/line-break, note, annotation, list, nested list, "
     "heading in list, list-header, table, nested table, heading in cell, list in cell, header rows, section, tracked deletion, text box, table in list)",
     "html _HtmlTextExtractor.extract: body with <= 2 blocks out of 17 constructs (gen_html_bodies)",
     "ods _extract_sheet text / xlsx, xls _format_sheet_as_text: all grids with <= 3 rows x <= 3 cells (ragged), cells out of {token, empty, two words}; ods also repeated rows / cells",
-    "odg _extract_full_text: one page with <= 2 shapes out of 8 constructs; pptx _extract_text_from_paragraphs: txBody with <= 2 paragraphs of <= 3 items (526 bodies)",
+    "odg _extract_full_text: one page with <= 2 shapes out of 8 constructs; pptx _extract_text_from_paragraphs: txBody with <= 2 paragraphs of <= 3 items (526 bodies; "
+    "since round 7 a concrete validation of the PROVED contract, no longer the only check)",
+    "data_types _join_unit_text: lists of <= 3 units out of 4 texts: concrete validation of the proved contract",
+    "rtf _RtfParser._is_skip_destination: 99 lookaheads (excluded / ignorable destinations, body control words, destination names as plain text): "
+    "concrete validation of the proved contract",
     "document level (replay/c02_docs.py): 19 flow features x {docx, odt, html, rtf, txt}, 8 deck features x {pptx, odp}, 8 workbook features x {xlsx, ods} "
     "through the public read_* entry points and get_full_text()",
     "etree model validation: 478 trees (<= 3 levels) against xml.etree",
